@@ -35,7 +35,9 @@ def rfft_grad(get_args, irfft_fun, ans, x, *args, **kwargs):
     check_no_repeated_axes(axes, anp.ndim(x))
     if s is None:
         s = [vs.shape[i] for i in axes]
-    s = [vs.shape[i] if n == -1 else n for n, i in zip(s, axes)]  # NumPy >= 2: -1 means the whole axis
+    if -1 in list(s):  # NumPy >= 2: an entry -1 means the whole axis; the inverse transform of the cotangent needs the lengths
+        s = [vs.shape[i] if n == -1 else n for n, i in zip(s, axes)]
+        args, kwargs = (s, axes, norm), {}
     check_even_shape(s)
 
     # s is the full fft shape
@@ -59,7 +61,9 @@ def irfft_grad(get_args, rfft_fun, ans, x, *args, **kwargs):
     check_no_repeated_axes(axes, anp.ndim(x))
     if gs is None:
         gs = [gvs.shape[i] for i in axes]
-    gs = [gvs.shape[i] if n == -1 else n for n, i in zip(gs, axes)]  # NumPy >= 2: -1 means the whole axis
+    if -1 in list(gs):  # NumPy >= 2: an entry -1 means the whole axis; the forward transform of the cotangent needs the lengths
+        gs = [gvs.shape[i] if n == -1 else n for n, i in zip(gs, axes)]
+        args, kwargs = (gs, axes, norm), {}
     check_even_shape(gs)
 
     # gs is the full fft shape
